@@ -124,7 +124,8 @@ def discharge(run, ob, timeout=10, want_all=False):
     hyps = relevant_hyps(hyps, ob.goal)
     t0 = time.time()
     try:
-        text, info = smt.build_query(hyps, ob.goal, quantified=False)
+        nlmul = 'nlmul' in (run.spec.flags if getattr(run, 'spec', None) is not None else ())
+        text, info = smt.build_query(hyps, ob.goal, quantified=False, nlmul=nlmul)
     except Exception as e:  # printing problem = engine bug; counts as failed
         ob.result = {'result': 'error', 'solver': None, 'time': 0.0, 'output': 'query generation failed: %r' % (e,)}
         return ob.result
@@ -137,7 +138,7 @@ def discharge(run, ob, timeout=10, want_all=False):
     res['query'] = text
     if res['result'] != 'unsat' and info['instantiated'] and not ob.expect_sat:
         # secondary: quantified form with the solvers' own instantiation (can only help with unsat)
-        text2, info2 = smt.build_query(hyps, ob.goal, quantified=True)
+        text2, info2 = smt.build_query(hyps, ob.goal, quantified=True, nlmul=nlmul)
         res2 = smt.solve(text2, timeout=timeout, want_all=want_all)
         if res2['result'] == 'unsat':
             res2['form'] = 'quantified'
